@@ -31,7 +31,7 @@ def _mk(name, base):
 # the caller's interrupt may be ANY exception class: classes that library code (or a pool wrapper) might trap for its own reasons
 EXC = {"Interrupted": Interrupted}
 for _b in (RuntimeError, ValueError, KeyError, IndexError, TypeError, AttributeError, OSError, ZeroDivisionError, FloatingPointError, MemoryError,
-           LookupError, ArithmeticError, AssertionError, NotImplementedError, BufferError, multiprocessing.TimeoutError):
+           LookupError, ArithmeticError, AssertionError, NotImplementedError, BufferError, multiprocessing.TimeoutError, StopIteration, StopAsyncIteration):
     EXC["I" + _b.__name__] = _mk("I" + _b.__name__, _b)
 EXC_ALT = [n for n in EXC if n != "Interrupted"]
 
